@@ -435,6 +435,7 @@ func c19(c *Ctx) {
 	c.checkEntryPairing()
 	c.checkNoChildrenReuse()
 	c.checkOwnOptionsLast()
+	c.checkNoChildSkipped()
 
 	// ---- R9.7
 	dead := core.NeverAssignedLocals(tp, func(fd *ast.FuncDecl) bool { return true })
@@ -1240,4 +1241,48 @@ func (c *Ctx) checkOwnOptionsLast() {
 		}
 	}
 	r.Floor("G5", n, 1)
+}
+
+// checkNoChildSkipped implements G6: the packer links every child it describes. In every fixture function that ranges over
+// a []DirEntry and builds a directory entry per child, each trip through the loop body either builds the entry (calls the
+// entry constructor) or leaves the function; a `continue` that bypasses the constructor stores a directory with fewer
+// links than the returned description lists children.
+func (c *Ctx) checkNoChildSkipped() {
+	r := c.R
+	r.Rule("G6", "no child is skipped when links are built: in a loop over the children ([]DirEntry) that constructs a directory entry per child, every path from the loop header back to it passes the entry constructor")
+	n := 0
+	for _, fn := range c.G.Funcs() {
+		rel, ok := c.P.PkgOf(fn)
+		if !ok || rel != "testutil" || fn.Synthetic != "" {
+			continue
+		}
+		for li, l := range rangeLoops(fn) {
+			if l.kind != "slice" || l.rng == nil {
+				continue
+			}
+			sl, ok := l.rng.Type().Underlying().(*types.Slice)
+			if !ok || !strings.Contains(types.TypeString(sl.Elem(), nil), "DirEntry") {
+				continue
+			}
+			isCtor := func(ins ssa.Instruction) bool {
+				call, ok := ins.(*ssa.Call)
+				return ok && call.Call.StaticCallee() != nil && isEntryCtor(call.Call.StaticCallee())
+			}
+			has := false
+			for b := range l.body {
+				for _, ins := range b.Instrs {
+					if isCtor(ins) {
+						has = true
+					}
+				}
+			}
+			if !has {
+				continue
+			}
+			n++
+			key := fmt.Sprintf("%s/every-child-linked#%d", core.FuncName(fn), li+1)
+			r.Check(everyCyclePasses(l.header, l.body, isCtor), "G6", key, c.P.Pos(firstPos(l.header)), "every child gets its link", "a path through the loop reaches the next child without building a link for this one: the stored directory has fewer links than the description has children")
+		}
+	}
+	r.Floor("G6", n, 1)
 }
